@@ -417,7 +417,35 @@ fn gen_op(r: &mut Rng, likely: bool) -> Value {
     }
 }
 
+/// long inputs: hundreds of subtags of one kind (counters, capacities, quadratic loops, recursion depth)
+fn gen_long(r: &mut Rng) -> Vec<u8> {
+    let n = 200 + r.below(140);
+    let uniq = |r: &mut Rng, i: usize, digit_first: bool| -> Vec<u8> {
+        // distinct 5..8-character subtags; a few repeats on purpose
+        let k = if r.chance(1, 10) { i / 2 } else { i };
+        let mut v = format!("{}{:04}", if digit_first { "9" } else { "v" }, k).into_bytes();
+        if r.chance(1, 3) { v.extend(word(r, LOWER, 1, 3)); }
+        v
+    };
+    let mut toks: Vec<Vec<u8>> = vec![b"en".to_vec()];
+    match r.below(6) {
+        0 => { for i in 0..n { let df = r.chance(1, 2); let v = uniq(r, i, df); toks.push(v); } }
+        1 => { toks.push(b"u".to_vec()); for i in 0..n { let v = uniq(r, i, false); toks.push(v); } }
+        2 => { toks.push(b"u".to_vec()); toks.push(b"ca".to_vec()); for i in 0..n { let v = uniq(r, i, false); toks.push(v); } }
+        3 => { toks.push(b"u".to_vec()); for i in 0..n { toks.push(vec![b'a' + (i % 26) as u8, b'a' + ((i / 26) % 26) as u8]); let v = uniq(r, i, false); toks.push(v); } }
+        4 => { toks.push(b"t".to_vec()); toks.push(b"h0".to_vec()); for i in 0..n { let v = uniq(r, i, false); toks.push(v); } }
+        _ => { toks.push(b"x".to_vec()); for i in 0..n { let v = uniq(r, i, false); toks.push(v); } }
+    }
+    noisy_join(r, &toks)
+}
+
 fn drive_parse(r: &mut Rng, n: usize, log: &mut Log) {
+    // a handful of long inputs per run (each is one event; validation cost grows with length)
+    for _ in 0..4.min(n / 200) {
+        let input = gen_long(r);
+        ev_li_parse(log, &input);
+        ev_loc_parse(log, &input);
+    }
     for _ in 0..n {
         let toks = gen_locale_tokens(r);
         let mut input = noisy_join(r, &toks);
